@@ -440,6 +440,42 @@ def e10b(ctx):
     g = m.method(gq, "print")
     from ..astx import class_helpers
     k = 0
+    COST = ("has_non_zero_cost", "bounds", "is_complete")
+
+    def cost_test(t, depth=0):
+        """does the test ask what the edit costs - directly, or through a method of the formatter that does?"""
+        for c in ast.walk(t):
+            if isinstance(c, ast.Call) and isinstance(c.func, ast.Attribute) and c.func.attr in COST:
+                return True
+            if isinstance(c, ast.Call) and self_attr(c.func) and depth < 2:
+                h_ = m.method(gq, self_attr(c.func))
+                if h_ is not None and h_.node.name not in ("print", "get_formatter") and any(cost_test(s_, depth + 1) for s_ in h_.node.body):
+                    return True
+        return False
+    # ... and where the edit is finally handed to its formatter, nothing but its presence is tested
+    ps0 = [p_ for p_ in func_params(g.node) if p_ not in ("self", "cls", "printer")]
+    if ps0:
+        aliases = set()
+        for a_ in walk_no_nested(g.node):
+            if isinstance(a_, (ast.Assign, ast.AnnAssign)) and a_.value is not None:
+                t_ = a_.targets[0] if isinstance(a_, ast.Assign) else a_.target
+                if isinstance(t_, ast.Name) and any(isinstance(x, ast.Name) and x.id == ps0[0] for x in
+                                                    ([a_.value] if isinstance(a_.value, ast.Name) else
+                                                     ([a_.value.body, a_.value.orelse] if isinstance(a_.value, ast.IfExp) else []))):
+                    aliases.add(t_.id)
+        for x in walk_no_nested(g.node):
+            if isinstance(x, ast.Name) and x.id in aliases and isinstance(x.ctx, ast.Load):
+                par = parent(x)
+                used = (isinstance(par, ast.Call) and x in par.args) or (isinstance(par, ast.Attribute) and par.attr == "print")
+                if not used:
+                    continue
+                bad_ = [t for t, pol in flatten_conditions(dominating_conditions(x)) if cost_test(t)
+                        and any(isinstance(y, ast.Name) and y.id == x.id for y in ast.walk(t))]
+                if bad_:
+                    ctx.violation("E10b", g.file, g.short, bad_[0], "explicit edit chosen by structure",
+                                  f"the edit reaches its formatter only if `{norm(bad_[0], 50)}`: an Insert or Remove of a null or an empty string "
+                                  f"costs 0, falls through to the plain node formatter, and `[1, 2] -> [1, null, 2]` is rendered without any mark")
+                    break
     for fn_ in class_helpers(m, gq, g, depth=1):
         ps_ = [p_ for p_ in func_params(fn_.node) if p_ not in ("self", "cls", "printer")]
         if not ps_:
@@ -456,8 +492,7 @@ def e10b(ctx):
             if not any(pol and isinstance(t, ast.Call) and call_name(t) == "isinstance" and "Edit" == (dotted(t.args[1]) or "") for t, pol in facts):
                 continue
             k += 1
-            cost = [t for t, pol in facts if any(isinstance(c, ast.Call) and isinstance(c.func, ast.Attribute)
-                                                  and c.func.attr in ("has_non_zero_cost", "bounds", "is_complete") for c in ast.walk(t))]
+            cost = [t for t, pol in facts if cost_test(t)]
             if cost:
                 ctx.violation("E10b", fn_.file, fn_.short, cost[0], "explicit edit chosen by structure",
                               f"an edit handed to print() is dropped unless `{norm(cost[0], 50)}`: the Insert of a null or of an empty string "
